@@ -60,8 +60,15 @@ func (tr TemplatedRegexp) Expand(rule parser.Rule) (*regexp.Regexp, error) {
 	return regexp.Compile(buf.String())
 }
 
+// neverMatch is used when a templated regexp cannot be expanded for a given rule,
+// a pattern that cannot be rendered into a valid regexp doesn't match anything.
+var neverMatch = regexp.MustCompile(`[^\x00-\x{10FFFF}]`)
+
 func (tr TemplatedRegexp) MustExpand(rule parser.Rule) *regexp.Regexp {
-	re, _ := tr.Expand(rule)
+	re, err := tr.Expand(rule)
+	if err != nil {
+		return neverMatch
+	}
 	return re
 }
 
